@@ -21,6 +21,9 @@ def regex_prep (truth : Term → Bool) : Out :=
 /-- the decorators of dataiter/regex.py: _prep, outermost first -/
 def regex_prep_decorators : List String := []
 
+/-- the signature of dataiter/regex.py: _prep: parameters in order, with the source text of their defaults -/
+def regex_prep_signature : List String := ["string", "dtype", "default"]
+
 /-- dataiter/regex.py: findall (sha256 of the function source: 4902cc55f73494f2) -/
 def regex_findall (truth : Term → Bool) : Out :=
   if truth (Term.app "util.is_scalar" [(Term.sym "string")]) then
@@ -34,6 +37,9 @@ def regex_findall (truth : Term → Bool) : Out :=
 
 /-- the decorators of dataiter/regex.py: findall, outermost first -/
 def regex_findall_decorators : List String := []
+
+/-- the signature of dataiter/regex.py: findall: parameters in order, with the source text of their defaults -/
+def regex_findall_signature : List String := ["pattern", "string", "flags=0"]
 
 /-- dataiter/regex.py: fullmatch (sha256 of the function source: ec51428baae53866) -/
 def regex_fullmatch (truth : Term → Bool) : Out :=
@@ -49,6 +55,9 @@ def regex_fullmatch (truth : Term → Bool) : Out :=
 /-- the decorators of dataiter/regex.py: fullmatch, outermost first -/
 def regex_fullmatch_decorators : List String := []
 
+/-- the signature of dataiter/regex.py: fullmatch: parameters in order, with the source text of their defaults -/
+def regex_fullmatch_signature : List String := ["pattern", "string", "flags=0"]
+
 /-- dataiter/regex.py: match (sha256 of the function source: c6e925bac0647769) -/
 def regex_match (truth : Term → Bool) : Out :=
   if truth (Term.app "util.is_scalar" [(Term.sym "string")]) then
@@ -62,6 +71,9 @@ def regex_match (truth : Term → Bool) : Out :=
 
 /-- the decorators of dataiter/regex.py: match, outermost first -/
 def regex_match_decorators : List String := []
+
+/-- the signature of dataiter/regex.py: match: parameters in order, with the source text of their defaults -/
+def regex_match_signature : List String := ["pattern", "string", "flags=0"]
 
 /-- dataiter/regex.py: search (sha256 of the function source: 12b06671de6cfb13) -/
 def regex_search (truth : Term → Bool) : Out :=
@@ -77,6 +89,9 @@ def regex_search (truth : Term → Bool) : Out :=
 /-- the decorators of dataiter/regex.py: search, outermost first -/
 def regex_search_decorators : List String := []
 
+/-- the signature of dataiter/regex.py: search: parameters in order, with the source text of their defaults -/
+def regex_search_signature : List String := ["pattern", "string", "flags=0"]
+
 /-- dataiter/regex.py: split (sha256 of the function source: 8ef049b1a9914292) -/
 def regex_split (truth : Term → Bool) : Out :=
   if truth (Term.app "util.is_scalar" [(Term.sym "string")]) then
@@ -90,6 +105,9 @@ def regex_split (truth : Term → Bool) : Out :=
 
 /-- the decorators of dataiter/regex.py: split, outermost first -/
 def regex_split_decorators : List String := []
+
+/-- the signature of dataiter/regex.py: split: parameters in order, with the source text of their defaults -/
+def regex_split_signature : List String := ["pattern", "string", "maxsplit=0", "flags=0"]
 
 /-- dataiter/regex.py: sub (sha256 of the function source: a357078e3cf50bcf) -/
 def regex_sub (truth : Term → Bool) : Out :=
@@ -105,6 +123,9 @@ def regex_sub (truth : Term → Bool) : Out :=
 /-- the decorators of dataiter/regex.py: sub, outermost first -/
 def regex_sub_decorators : List String := []
 
+/-- the signature of dataiter/regex.py: sub: parameters in order, with the source text of their defaults -/
+def regex_sub_signature : List String := ["pattern", "repl", "string", "count=0", "flags=0"]
+
 /-- dataiter/regex.py: subn (sha256 of the function source: 7393a5bff2ee5411) -/
 def regex_subn (truth : Term → Bool) : Out :=
   if truth (Term.app "util.is_scalar" [(Term.sym "string")]) then
@@ -118,6 +139,9 @@ def regex_subn (truth : Term → Bool) : Out :=
 
 /-- the decorators of dataiter/regex.py: subn, outermost first -/
 def regex_subn_decorators : List String := []
+
+/-- the signature of dataiter/regex.py: subn: parameters in order, with the source text of their defaults -/
+def regex_subn_signature : List String := ["pattern", "repl", "string", "count=0", "flags=0"]
 
 /-- dataiter/dt.py: _pull_int (sha256 of the function source: e730627818a8e6fd) -/
 def dt_pull_int (truth : Term → Bool) : Out :=
@@ -140,6 +164,9 @@ def dt_pull_int (truth : Term → Bool) : Out :=
 /-- the decorators of dataiter/dt.py: _pull_int, outermost first -/
 def dt_pull_int_decorators : List String := []
 
+/-- the signature of dataiter/dt.py: _pull_int: parameters in order, with the source text of their defaults -/
+def dt_pull_int_signature : List String := ["x", "function"]
+
 /-- dataiter/dt.py: _pull_str (sha256 of the function source: 0ace260099d3c2a1) -/
 def dt_pull_str (truth : Term → Bool) : Out :=
   if truth (Term.app "util.is_scalar" [(Term.sym "x")]) then
@@ -160,6 +187,9 @@ def dt_pull_str (truth : Term → Bool) : Out :=
 
 /-- the decorators of dataiter/dt.py: _pull_str, outermost first -/
 def dt_pull_str_decorators : List String := []
+
+/-- the signature of dataiter/dt.py: _pull_str: parameters in order, with the source text of their defaults -/
+def dt_pull_str_signature : List String := ["x", "function"]
 
 /-- dataiter/dt.py: _pull_datetime (sha256 of the function source: b450a177d6bbe7de) -/
 def dt_pull_datetime (truth : Term → Bool) : Out :=
@@ -182,12 +212,18 @@ def dt_pull_datetime (truth : Term → Bool) : Out :=
 /-- the decorators of dataiter/dt.py: _pull_datetime, outermost first -/
 def dt_pull_datetime_decorators : List String := []
 
+/-- the signature of dataiter/dt.py: _pull_datetime: parameters in order, with the source text of their defaults -/
+def dt_pull_datetime_signature : List String := ["x", "function"]
+
 /-- dataiter/dt.py: to_string (sha256 of the function source: b9b05e2e2af69566) -/
 def dt_to_string (truth : Term → Bool) : Out :=
   Out.ret [] (Term.app "_pull_str" [(Term.sym "x"), (Term.app "lambda" [(Term.app "params" [(Term.sym "x")]), (Term.app ".strftime" [(Term.sym "x"), (Term.sym "format")])])])
 
 /-- the decorators of dataiter/dt.py: to_string, outermost first -/
 def dt_to_string_decorators : List String := []
+
+/-- the signature of dataiter/dt.py: to_string: parameters in order, with the source text of their defaults -/
+def dt_to_string_signature : List String := ["x", "format"]
 
 /-- dataiter/dt.py: from_string (sha256 of the function source: 14a94c6c4b66d16c) -/
 def dt_from_string (truth : Term → Bool) : Out :=
@@ -220,12 +256,18 @@ def dt_from_string (truth : Term → Bool) : Out :=
 /-- the decorators of dataiter/dt.py: from_string, outermost first -/
 def dt_from_string_decorators : List String := []
 
+/-- the signature of dataiter/dt.py: from_string: parameters in order, with the source text of their defaults -/
+def dt_from_string_signature : List String := ["x", "format"]
+
 /-- dataiter/dt.py: year (sha256 of the function source: 966527defa24e52d) -/
 def dt_year (truth : Term → Bool) : Out :=
   Out.ret [] (Term.app "_pull_int" [(Term.sym "x"), (Term.app "lambda" [(Term.app "params" [(Term.sym "y")]), (Term.app ".year" [(Term.sym "y")])])])
 
 /-- the decorators of dataiter/dt.py: year, outermost first -/
 def dt_year_decorators : List String := []
+
+/-- the signature of dataiter/dt.py: year: parameters in order, with the source text of their defaults -/
+def dt_year_signature : List String := ["x"]
 
 /-- dataiter/dt.py: quarter (sha256 of the function source: ad22adfe0412346d) -/
 def dt_quarter (truth : Term → Bool) : Out :=
@@ -235,12 +277,18 @@ def dt_quarter (truth : Term → Bool) : Out :=
 /-- the decorators of dataiter/dt.py: quarter, outermost first -/
 def dt_quarter_decorators : List String := []
 
+/-- the signature of dataiter/dt.py: quarter: parameters in order, with the source text of their defaults -/
+def dt_quarter_signature : List String := ["x"]
+
 /-- dataiter/dt.py: weekday (sha256 of the function source: 26c5b568200c704c) -/
 def dt_weekday (truth : Term → Bool) : Out :=
   Out.ret [] (Term.app "_pull_int" [(Term.sym "x"), (Term.app "lambda" [(Term.app "params" [(Term.sym "y")]), (Term.app ".weekday" [(Term.sym "y")])])])
 
 /-- the decorators of dataiter/dt.py: weekday, outermost first -/
 def dt_weekday_decorators : List String := []
+
+/-- the signature of dataiter/dt.py: weekday: parameters in order, with the source text of their defaults -/
+def dt_weekday_signature : List String := ["x"]
 
 /-- dataiter/dt.py: replace (sha256 of the function source: 7a64db9835d04c00) -/
 def dt_replace (truth : Term → Bool) : Out :=
@@ -263,5 +311,8 @@ def dt_replace (truth : Term → Bool) : Out :=
 
 /-- the decorators of dataiter/dt.py: replace, outermost first -/
 def dt_replace_decorators : List String := []
+
+/-- the signature of dataiter/dt.py: replace: parameters in order, with the source text of their defaults -/
+def dt_replace_signature : List String := ["x", "year=None", "month=None", "day=None", "hour=None", "minute=None", "second=None", "microsecond=None"]
 
 end DI.Gen
